@@ -103,7 +103,6 @@ def opened_as_local(target):
 
 
 _A = dict(props=["C17"], assumed=True, note="ASSUMED: uninterpreted opener (a function of cfg and the target)")
-contract(R + "_open_file_link", args={"cfg": CFG, "zo_path": PATH, "link": T.str()}, result_is="opened_as_page(cfg, link)", **_A)
 contract(R + "_open_url_link", args={"cfg": CFG, "url_link": T.str()}, result_is="opened_as_url(cfg, url_link)", **_A)
 contract(R + "_open_cite_key_link", args={"zdir": PATH, "z_cite_key": T.str()}, result_is="opened_as_cite(zdir, z_cite_key)", **_A)
 
@@ -114,6 +113,10 @@ def _stub_open_local(interp, args, kwargs):
 
 def _stub_open_zid(interp, args, kwargs):
     return interp.call(interp.wrap_global(opened_as_zid), [args[0], args[1]], {})
+
+
+def _stub_open_page(interp, args, kwargs):
+    return interp.call(interp.wrap_global(opened_as_page), [args[0], args[2]], {})
 
 
 def _stub_open_global(interp, args, kwargs):
@@ -127,7 +130,7 @@ def _stub_open_reference(interp, args, kwargs):
 contract(
     R + "_open_link", props=["C17"], args={"cfg": CFG, "target": T.str()}, returns=T.int(),
     stubs={R + "_open_local_link": _stub_open_local, R + "_open_zid_link": _stub_open_zid, R + "_open_global_link": _stub_open_global,
-           R + "_open_rid_link": _stub_open_reference},
+           R + "_open_rid_link": _stub_open_reference, R + "_open_file_link": _stub_open_page},
     # ID / RID / URL names are identifiers: they never contain the local-link marker `[^` (a word such as `[#[^x]]` is outside the
     # statement's vocabulary and is left open)
     ensures={
@@ -192,5 +195,36 @@ contract(
             "'EDIT ' + str(page_path(cfg.zettel_dir, ghost('owners')[0])), 'SEARCH ID::' + id_link[2:len(id_link) - 1] + SEARCH_END])",
         "owners-on-several-pages: nothing is opened - one ECHO message, exit status 1":
             "implies(len(ghost('owners')) > 1 and not all(p == ghost('owners')[0] for p in ghost('owners')), result == 1 and len(printed()) == 1 and printed()[0].startswith('ECHO '))",
+    },
+)
+
+
+# ---------------------------------------------------------------------------------------------------------------
+# _open_file_link: [[p]] resolves to page p under the notes directory.  Text pages only
+# (the page's extension is not a configured binary extension - binary files are handed to an external program, outside the
+# statement); creating a missing page from its template is a stub (C16).  Path.suffix is an uninterpreted function of the path.
+# ---------------------------------------------------------------------------------------------------------------
+from pathlib import Path  # noqa: E402,F401
+
+CFG_FILE = T.rec("OpenActionConfig", {"zettel_dir": PATH, "zo_path": PATH, "database_url": T.str(), "verbose": T.int(), "binary_exts": T.list(T.str()),
+                                      "template_pattern_map": T.map(T.str(), T.str())})
+
+
+def _stub_init_from_template(interp, args, kwargs):
+    """ASSUMED init_from_template: creates the missing page from its template, prints nothing (its own contract: C16)"""
+    return None
+
+
+contract(
+    R + "_open_file_link", props=["C17"], args={"cfg": CFG_FILE, "zo_path": PATH, "link": T.str()}, returns=T.int(),
+    stubs={"zorg.service.templates:init_from_template": _stub_init_from_template},
+    # The anchored form [[p#a]] is NOT under contract: the engine's model of `str.split('#')` followed by `[:-2]` refuted the real code
+    # spuriously on `[[K#]]` (empty anchor; replayed natively - the real code answers `EDIT .../K.zo`, `SEARCH LID::` as the clause
+    # demands).  An engine imprecision, not a defect: the clause was withdrawn rather than narrowed, the bounded tier decides anchors.
+    requires={"a-page-link-without-anchor": "link.startswith('[[') and link.endswith(']]') and len(link) >= 5 and '#' not in link",
+              "no-binary-extensions-configured (text pages only)": "len(cfg.binary_exts) == 0"},
+    ensures={
+        "[[p]]: EDIT page p under the notes directory, nothing else":
+            "result == 0 and printed() == ['EDIT ' + str(page_path(cfg.zettel_dir, Path(link[2:len(link) - 2])))]",
     },
 )
